@@ -257,6 +257,30 @@ def d5(cx: Cx, ob: Ob) -> None:
     conv = ("param", fn.params[0].name)
     from ..rules import truth_table
 
+    # an exit in front of the loop ("nothing applies to this converter") is a skip of EVERY pair at once: it may
+    # only be taken on what the converter knows about ALL its names - bimap / get_prefixes() hold the canonical
+    # prefixes only, and a pair whose old prefix is a synonym would be ignored
+    for p_ in s.paths:
+        if any(e.kind in ("loop", "while") for e in p_.events) or p_.out is None or p_.out[0] != "return":
+            continue
+        for g in p_.events:
+            if g.kind != "guard":
+                continue
+            subs = list(subterms(g.a))
+            full = any((op(x) == "attr" and x[1] == conv and x[2] in ("synonym_to_prefix", "prefix_map")) or (op(x) == "call" and op(x[1]) == "attr" and x[1][1] == conv and (x[1][2] in ("standardize_prefix", "get_record") or (x[1][2] == "get_prefixes" and is_const(dict(x[3]).get("include_synonyms"), True)))) for x in subs)
+            reads = {x[2] for x in subs if op(x) == "attr" and x[2] in CURIE_SIDE}
+            via_records = any(x == ("attr", conv, "records") for x in subs) and reads == {"prefix"}
+            for x in subs:
+                canon_only = (op(x) == "attr" and x[1] == conv and x[2] in ("bimap", "pattern_map")) or (op(x) == "call" and op(x[1]) == "attr" and x[1][1] == conv and x[1][2] == "get_prefixes" and not is_const(dict(x[3]).get("include_synonyms"), True)) or (via_records and x == ("attr", conv, "records"))
+                if canon_only and not full:
+                    ob.violate(
+                        fn.qualname,
+                        where(fn, g.line),
+                        f"remap_curie_prefixes returns early on a test of `{show(x)[:40]}`, which holds the canonical prefixes only: a remapping whose old prefixes are known as SYNONYMS is ignored altogether",
+                        witness="remap({'GO': 'go'}) makes 'GO' a synonym; then remap({'GO': 'obo.go'}) is silently dropped",
+                        detail="early-exit-canonical-only",
+                    )
+
     def _record_stores(paths):
         for p_ in paths:
             for ev in p_.events:
@@ -594,3 +618,10 @@ def x4(cx: Cx, ob: Ob) -> None:
 
     c04_order(cx, ob)
     c04_matrix(cx, ob)
+
+
+@obligation("C11-D7", "the converter handed out is built AFTER the records were renamed: the working converter constructed from copies at the start, whose records are then changed in place, is not returned as it is (its prefix_map / synonym_to_prefix would still describe the old names)", floor=1)
+def d7(cx: Cx, ob: Ob) -> None:
+    from ..rules import stale_tables
+
+    stale_tables(cx, ob, [f"{RECON}.remap_curie_prefixes"])
